@@ -6,7 +6,7 @@
     increasing separators that bound their subtrees, and every internal node has at least m keys. *)
 From Coq Require Import List ZArith Sorted.
 From VibeSQL Require Import Store.BTree Store.BTreeLemmas Store.BTreeLaws Store.BTreeDelete
-  Store.BTreeCheck Store.BTreeSeq Store.BTreeBulk.
+  Store.BTreeCheck Store.BTreeSeq Store.BTreeBulk Store.BTreePatched.
 Import ListNotations.
 
 (** ** queries *)
@@ -57,7 +57,7 @@ Theorem C17_delete_refines : forall (d : nat) (ksz : key -> Z) (guard : bool), 4
   | Ok (t', b) => WF 1 t' /\ abs (root t') = mm_delete (abs (root t)) k /\ b = mm_mem (abs (root t)) k
   | Err e => e = PageOverflow
   end.
-Proof. exact delete_refines. Qed.
+Proof. exact delete_refines_wf1. Qed.
 Print Assumptions C17_delete_refines.
 
 Theorem C17_delete_specific_refines : forall (d : nat) (ksz : key -> Z) (guard : bool), 4 <= d ->
@@ -66,7 +66,7 @@ Theorem C17_delete_specific_refines : forall (d : nat) (ksz : key -> Z) (guard :
   | Ok (t', b) => WF 1 t' /\ (abs (root t'), b) = mm_delete_one (abs (root t)) k r
   | Err e => e = PageOverflow
   end.
-Proof. exact delete_specific_refines. Qed.
+Proof. exact delete_specific_refines_wf1. Qed.
 Print Assumptions C17_delete_specific_refines.
 
 (** ** all operation sequences *)
@@ -76,13 +76,13 @@ Theorem C17_step_refines : forall (d : nat) (ksz : key -> Z) (guard : bool), 4 <
   | Ok (t', a) => WF 1 t' /\ (abs (root t'), a) = mm_step (abs (root t)) o
   | Err e => e = PageOverflow
   end.
-Proof. exact step_refines. Qed.
+Proof. exact step_refines_wf1. Qed.
 Print Assumptions C17_step_refines.
 
 Theorem C17_run_refines : forall (d : nat) (ksz : key -> Z) (guard : bool), 4 <= d ->
   forall (ops : list op) (t : tree), WF 1 t ->
   refines (run d ksz guard t ops) (mm_run (abs (root t)) ops).
-Proof. exact run_refines. Qed.
+Proof. exact run_refines_wf1. Qed.
 Print Assumptions C17_run_refines.
 
 Theorem C17_run_state_refines : forall (d : nat) (ksz : key -> Z) (guard : bool), 4 <= d ->
@@ -91,7 +91,7 @@ Theorem C17_run_state_refines : forall (d : nat) (ksz : key -> Z) (guard : bool)
   | Ok t' => WF 1 t' /\ abs (root t') = mm_run_state (abs (root t)) ops
   | Err e => e = PageOverflow
   end.
-Proof. exact run_state_refines. Qed.
+Proof. exact run_state_refines_wf1. Qed.
 Print Assumptions C17_run_state_refines.
 
 Theorem C17_run_from_empty : forall (d : nat) (ksz : key -> Z) (guard : bool), 4 <= d ->
@@ -137,6 +137,32 @@ Theorem C17_delete_after_bulk_load_refuted :
     WFb 0 t = true /\ WFb 1 t = false /\ delete 5 c17_ksz false t k = Err Panic.
 Proof. exact bulk_load_delete_refuted. Qed.
 Print Assumptions C17_delete_after_bulk_load_refuted.
+
+(** ** the code with the two proposed repairs applied ([guard = true], repaired separator):
+    single-child internal nodes are tolerated, so bulk-loaded trees are covered as well *)
+Theorem C17_delete_refines_patched : forall (d : nat) (ksz : key -> Z), 4 <= d ->
+  forall (t : tree) (k : key), WF 0 t ->
+  match delete d ksz true t k with
+  | Ok (t', b) => WF 0 t' /\ abs (root t') = mm_delete (abs (root t)) k /\ b = mm_mem (abs (root t)) k
+  | Err e => e = PageOverflow
+  end.
+Proof. exact delete_refines_guarded. Qed.
+Print Assumptions C17_delete_refines_patched.
+
+Theorem C17_run_refines_patched : forall (d : nat) (ksz : key -> Z), 4 <= d ->
+  forall (ops : list op) (t : tree), WF 0 t ->
+  refines (run d ksz true t ops) (mm_run (abs (root t)) ops).
+Proof. exact run_refines_guarded. Qed.
+Print Assumptions C17_run_refines_patched.
+
+Theorem C17_bulk_load_then_run_patched : forall (d : nat) (ksz : key -> Z), 4 <= d ->
+  forall (es : list (key * rowid)) (ops : list op), StronglySorted Z.le (map fst es) ->
+  match bulk_load_fixed d ksz es with
+  | Ok t => refines (run d ksz true t ops) (mm_run (mm_of_list es) ops)
+  | Err e => e = PageOverflow
+  end.
+Proof. exact patched_bulk_then_run. Qed.
+Print Assumptions C17_bulk_load_then_run_patched.
 
 (** ** the executable well-formedness check used on the real page dumps is sound *)
 Theorem C17_WFb_sound : forall (m : nat) (t : tree), WFb m t = true -> WF m t.
